@@ -1,12 +1,940 @@
 package sim
 
-// Adversary owns the Byzantine and outsider keys and the network.
+import (
+	"fmt"
+	"math/rand"
+	"sort"
+
+	"github.com/orbs-network/lean-helix-go/services/interfaces"
+
+	"verif/ref"
+	"verif/spi"
+)
+
+// Adversary owns the Byzantine member keys, the outsider keys and the network.
+// It sees all traffic and all node states (worst case), can sign only with its
+// own keys, and can replay any bytes or signatures it has seen.
 type Adversary struct {
-	w *World
-	p *Profile
+	w     *World
+	p     *Profile
+	r     *rand.Rand
+	byz   []string
+	outs  []string
+	own   map[string]bool
+	seq   int
+	done  map[string]bool
+	Fired map[string]int
+	strat []wstrat
+	total int
 }
 
-func NewAdversary(w *World, p *Profile) *Adversary { return &Adversary{w: w, p: p} }
+type wstrat struct {
+	name string
+	w    int
+	f    func(h uint64) bool
+}
 
-func (a *Adversary) Active() bool { return false }
-func (a *Adversary) Step() string { return "" }
+func NewAdversary(w *World, p *Profile) *Adversary {
+	a := &Adversary{w: w, p: p, r: w.Rng, own: map[string]bool{}, done: map[string]bool{}, Fired: map[string]int{}}
+	for id := range w.Cfg.Byz {
+		a.byz = append(a.byz, id)
+		a.own[id] = true
+	}
+	sort.Strings(a.byz)
+	for id := range w.Cfg.Outsiders {
+		a.outs = append(a.outs, id)
+		a.own[id] = true
+	}
+	sort.Strings(a.outs)
+	a.strat = []wstrat{
+		{"equivocate", 6, a.equivocate},
+		{"support", 14, a.support},
+		{"barePP", 5, a.barePP},
+		{"forgedNV", 8, a.forgedNV},
+		{"twistedNV", 8, a.twistedNV},
+		{"mutate", 25, a.mutate},
+		{"outsider", 5, a.outsider},
+		{"vcGames", 8, a.vcGames},
+		{"garbage", 2, a.garbage},
+		{"hugeView", 2, a.hugeView},
+		{"badBlock", 4, a.badBlock},
+		{"honestLike", 6, a.honestLike},
+	}
+	for i := range a.strat {
+		if p.AdvWeights != nil {
+			if x, ok := p.AdvWeights[a.strat[i].name]; ok {
+				a.strat[i].w = x
+			}
+		}
+		a.total += a.strat[i].w
+	}
+	return a
+}
+
+func (a *Adversary) Active() bool { return a.p.Adversary && (len(a.byz) > 0 || len(a.outs) > 0) && a.total > 0 }
+
+// Step runs one adversary action at a height some correct node is deciding.
+func (a *Adversary) Step() string {
+	w := a.w
+	var hs []uint64
+	for _, id := range w.Order {
+		h := uint64(w.Nodes[id].St.Height())
+		if h >= 1 && h <= w.Cfg.MaxH {
+			hs = append(hs, h)
+		}
+	}
+	if len(hs) == 0 {
+		return "idle"
+	}
+	h := hs[a.r.Intn(len(hs))]
+	for try := 0; try < 4; try++ {
+		x := a.r.Intn(a.total)
+		for i := range a.strat {
+			if x < a.strat[i].w {
+				if a.strat[i].f(h) {
+					a.Fired[a.strat[i].name]++
+					w.Mon.Stats["adv "+a.strat[i].name]++
+					return a.strat[i].name
+				}
+				break
+			}
+			x -= a.strat[i].w
+		}
+	}
+	return "none"
+}
+
+// ---------------------------------------------------------------- helpers
+
+func (a *Adversary) at(h uint64) []*Node {
+	var out []*Node
+	for _, id := range a.w.Order {
+		n := a.w.Nodes[id]
+		if uint64(n.St.Height()) == h {
+			out = append(out, n)
+		}
+	}
+	return out
+}
+
+func (a *Adversary) byzMembers(h uint64) []string {
+	c := a.w.Comm(h)
+	var out []string
+	for _, b := range a.byz {
+		if c.Has(b) {
+			out = append(out, b)
+		}
+	}
+	return out
+}
+
+func (a *Adversary) garbageSig() []byte {
+	b := make([]byte, 32)
+	a.r.Read(b)
+	return b
+}
+
+// sign: genuine for own ids, garbage otherwise.
+func (a *Adversary) sign(id string, h uint64, raw []byte) []byte {
+	if a.own[id] {
+		return a.w.Keys.SignCM(id, h, raw)
+	}
+	return a.garbageSig()
+}
+
+func (a *Adversary) share(id string, h uint64) []byte {
+	if a.own[id] {
+		return a.w.Keys.Share(id, h, a.w.SeedBytes(h))
+	}
+	// replay a genuine share of that node at this height if one was seen
+	for _, f := range a.w.Seen {
+		if f.Msg != nil && f.Msg.Env == ref.EnvC && f.Msg.H == h && f.Msg.Sender.Id == id && f.Honest {
+			return f.Msg.Share
+		}
+	}
+	return a.garbageSig()
+}
+
+func (a *Adversary) newBlock(h uint64, bad bool) *spi.Blk {
+	a.seq++
+	return &spi.Blk{H: h, Body: fmt.Sprintf("evil-%d", a.seq), Bad: bad}
+}
+
+// send delivers now (direct) or leaves the message to the scheduler.
+func (a *Adversary) send(from, to string, raw *interfaces.ConsensusRawMessage) {
+	if raw == nil || !a.w.IsCorrect(to) {
+		return
+	}
+	f := a.w.Inject(from, to, raw)
+	if a.r.Intn(10) < 6 {
+		for i := len(a.w.Pool) - 1; i >= 0; i-- {
+			if a.w.Pool[i] == f {
+				a.w.TakeFlight(i)
+				break
+			}
+		}
+		a.w.Deliver(f)
+		a.w.Mon.Stats["delivered adversarial"]++
+	}
+}
+
+func (a *Adversary) sendSome(from string, nodes []*Node, raw *interfaces.ConsensusRawMessage, pct int) {
+	for _, n := range nodes {
+		if a.r.Intn(100) < pct {
+			a.send(from, n.Id, raw)
+		}
+	}
+}
+
+func (a *Adversary) mkRefMsg(env ref.Env, typ ref.MT, signer string, inst, h, v uint64, hash []byte, blk *spi.Blk) *interfaces.ConsensusRawMessage {
+	hdr := &ref.Ref{Type: typ, Inst: inst, H: h, V: v, Hash: hash}
+	sg := ref.Sig{Id: signer, Sig: a.sign(signer, h, hdr.Bytes())}
+	var share []byte
+	if env == ref.EnvC {
+		share = a.share(signer, h)
+	}
+	var b interfaces.Block
+	if blk != nil {
+		b = blk
+	}
+	return ref.RawBlockRefMsg(env, hdr, sg, share, b)
+}
+
+func (a *Adversary) mkVote(signer string, inst, h, v uint64, proof *ref.Proof) *ref.Vote {
+	vt := &ref.Vote{Type: ref.VC, Inst: inst, H: h, V: v, Proof: proof}
+	vt.Sender = ref.Sig{Id: signer, Sig: a.sign(signer, h, vt.HeaderBytes())}
+	return vt
+}
+
+func (a *Adversary) mkNV(leader string, h, v uint64, votes []*ref.Vote, propHash []byte, blk *spi.Blk, embView uint64) *interfaces.ConsensusRawMessage {
+	inst := uint64(spi.InstanceId)
+	emb := &ref.Ref{Type: ref.PP, Inst: inst, H: h, V: embView, Hash: propHash}
+	embSig := &ref.Sig{Id: leader, Sig: a.sign(leader, h, emb.Bytes())}
+	sg := ref.Sig{Id: leader, Sig: a.sign(leader, h, ref.NVHeaderBytes(ref.NV, inst, h, v, votes))}
+	var b interfaces.Block
+	if blk != nil {
+		b = blk
+	}
+	return ref.RawNewViewMsg(ref.NV, inst, h, v, votes, sg, emb, embSig, b)
+}
+
+// views the correct nodes at height h are in, plus one
+func (a *Adversary) views(h uint64) []uint64 {
+	set := map[uint64]bool{}
+	for _, n := range a.at(h) {
+		v := uint64(n.St.View())
+		set[v] = true
+		set[v+1] = true
+	}
+	var out []uint64
+	for v := range set {
+		out = append(out, v)
+	}
+	sort.Slice(out, func(i, j int) bool { return out[i] < out[j] })
+	return out
+}
+
+// byzLedView: a view (among candidates) led by a Byzantine member.
+func (a *Adversary) byzLedView(h uint64, minView uint64) (uint64, string, bool) {
+	c := a.w.Comm(h)
+	var cands []uint64
+	for _, v := range a.views(h) {
+		if v >= minView && a.w.Cfg.Byz[c.Leader(v)] {
+			cands = append(cands, v)
+		}
+	}
+	if len(cands) == 0 {
+		return 0, "", false
+	}
+	v := cands[a.r.Intn(len(cands))]
+	return v, c.Leader(v), true
+}
+
+// proposals seen at height h: distinct (v, hash, block)
+type prop struct {
+	v    uint64
+	hash string
+	blk  *spi.Blk
+}
+
+func (a *Adversary) proposals(h uint64) []prop {
+	seen := map[string]bool{}
+	var out []prop
+	for i := len(a.w.Seen) - 1; i >= 0 && len(out) < 12; i-- {
+		m := a.w.Seen[i].Msg
+		if m == nil || m.H != h || (m.Env != ref.EnvPP && m.Env != ref.EnvNV) || len(m.Hash) == 0 {
+			continue
+		}
+		k := fmt.Sprintf("%d|%s", m.V, m.Hash)
+		if seen[k] {
+			continue
+		}
+		seen[k] = true
+		out = append(out, prop{m.V, string(m.Hash), m.Block})
+	}
+	return out
+}
+
+// ---------------------------------------------------------------- strategies
+
+// equivocate: a Byzantine leader sends two proposals for one view to disjoint subsets.
+func (a *Adversary) equivocate(h uint64) bool {
+	v, leader, ok := a.byzLedView(h, 0)
+	if !ok || v != 0 && a.r.Intn(2) == 0 {
+		return false
+	}
+	k := fmt.Sprintf("eq|%d|%d", h, v)
+	if a.done[k] {
+		return false
+	}
+	a.done[k] = true
+	A, B := a.newBlock(h, false), a.newBlock(h, false)
+	inst := uint64(spi.InstanceId)
+	ma := a.mkRefMsg(ref.EnvPP, ref.PP, leader, inst, h, v, spi.HashOf(A), A)
+	mb := a.mkRefMsg(ref.EnvPP, ref.PP, leader, inst, h, v, spi.HashOf(B), B)
+	for _, n := range a.at(h) {
+		if a.r.Intn(2) == 0 {
+			a.send(leader, n.Id, ma)
+		} else {
+			a.send(leader, n.Id, mb)
+		}
+	}
+	return true
+}
+
+// support: Byzantine members PREPARE and COMMIT every proposal they have seen, selectively.
+func (a *Adversary) support(h uint64) bool {
+	props := a.proposals(h)
+	bm := a.byzMembers(h)
+	if len(props) == 0 || len(bm) == 0 {
+		return false
+	}
+	c := a.w.Comm(h)
+	p := props[a.r.Intn(len(props))]
+	inst := uint64(spi.InstanceId)
+	did := false
+	for _, b := range bm {
+		for _, n := range a.at(h) {
+			k := fmt.Sprintf("sup|%s|%s|%d|%d|%s", b, n.Id, h, p.v, p.hash)
+			if a.done[k] || a.r.Intn(3) == 0 {
+				continue
+			}
+			a.done[k] = true
+			did = true
+			if c.Leader(p.v) != b {
+				a.send(b, n.Id, a.mkRefMsg(ref.EnvP, ref.P, b, inst, h, p.v, []byte(p.hash), nil))
+			}
+			if a.r.Intn(2) == 0 {
+				a.send(b, n.Id, a.mkRefMsg(ref.EnvC, ref.C, b, inst, h, p.v, []byte(p.hash), nil))
+			}
+		}
+	}
+	return did
+}
+
+// barePP: standalone PREPREPARE for a view above 0 from its Byzantine leader.
+func (a *Adversary) barePP(h uint64) bool {
+	v, leader, ok := a.byzLedView(h, 1)
+	if !ok {
+		return false
+	}
+	E := a.newBlock(h, false)
+	m := a.mkRefMsg(ref.EnvPP, ref.PP, leader, uint64(spi.InstanceId), h, v, spi.HashOf(E), E)
+	a.sendSome(leader, a.at(h), m, 80)
+	return true
+}
+
+// badBlock: a Byzantine leader proposes a block every correct validator rejects.
+func (a *Adversary) badBlock(h uint64) bool {
+	v, leader, ok := a.byzLedView(h, 0)
+	if !ok {
+		return false
+	}
+	E := a.newBlock(h, true)
+	inst := uint64(spi.InstanceId)
+	if v == 0 || a.r.Intn(2) == 0 {
+		a.sendSome(leader, a.at(h), a.mkRefMsg(ref.EnvPP, ref.PP, leader, inst, h, v, spi.HashOf(E), E), 90)
+	} else {
+		votes := a.collectVotes(h, v, leader)
+		a.sendSome(leader, a.at(h), a.mkNV(leader, h, v, votes, spi.HashOf(E), E, v), 90)
+	}
+	return true
+}
+
+// genuine votes addressed to a Byzantine leader, plus the Byzantine members' own
+func (a *Adversary) collectVotes(h, v uint64, leader string) []*ref.Vote {
+	byId := map[string]*ref.Vote{}
+	for _, f := range a.w.Seen {
+		m := f.Msg
+		if m == nil || m.Env != ref.EnvVC || m.H != h || m.V != v || !f.Honest || f.To != leader {
+			continue
+		}
+		byId[m.Sender.Id] = m.Vote.KeepRaw()
+	}
+	inst := uint64(spi.InstanceId)
+	for _, b := range a.byzMembers(h) {
+		if _, ok := byId[b]; !ok {
+			byId[b] = a.mkVote(b, inst, h, v, nil)
+		}
+	}
+	var ids []string
+	for id := range byId {
+		ids = append(ids, id)
+	}
+	sort.Strings(ids)
+	var out []*ref.Vote
+	for _, id := range ids {
+		out = append(out, byId[id])
+	}
+	return out
+}
+
+func voteIds(votes []*ref.Vote) []string {
+	var ids []string
+	for _, v := range votes {
+		ids = append(ids, v.Sender.Id)
+	}
+	return ids
+}
+
+// forgedNV: NEW_VIEW from the Byzantine leader of a view with a forged vote set.
+func (a *Adversary) forgedNV(h uint64) bool {
+	v, leader, ok := a.byzLedView(h, 1)
+	if !ok {
+		return false
+	}
+	c := a.w.Comm(h)
+	inst := uint64(spi.InstanceId)
+	votes := a.collectVotes(h, v, leader)
+	have := map[string]bool{}
+	for _, id := range voteIds(votes) {
+		have[id] = true
+	}
+	variant := a.r.Intn(7)
+	// fill up to quorum with forged votes
+	for _, m := range c.Members {
+		id := string(m.Id)
+		if c.IsQuorum(voteIds(votes)) && variant != 3 {
+			break
+		}
+		if have[id] {
+			continue
+		}
+		var vt *ref.Vote
+		switch variant {
+		case 0, 5, 6: // unsigned / garbage signature under the honest id
+			vt = a.mkVote(id, inst, h, v, nil)
+		case 1: // re-signed by the leader's key under the honest id
+			vt = &ref.Vote{Type: ref.VC, Inst: inst, H: h, V: v}
+			vt.Sender = ref.Sig{Id: id, Sig: a.w.Keys.SignCM(leader, h, vt.HeaderBytes())}
+		case 2: // replay the node's genuine vote of another view with the view field rewritten
+			vt = a.replayVote(id, h, v)
+			if vt == nil {
+				vt = a.mkVote(id, inst, h, v, nil)
+			}
+		case 3: // duplicates of the leader's own vote
+			vt = a.mkVote(leader, inst, h, v, nil)
+		case 4: // outsider votes with valid keys
+			if len(a.outs) == 0 {
+				return false
+			}
+			vt = a.mkVote(a.outs[a.r.Intn(len(a.outs))], inst, h, v, nil)
+		}
+		votes = append(votes, vt)
+		have[id] = true
+		if variant == 3 && len(votes) > c.N()+1 {
+			break
+		}
+	}
+	E := a.newBlock(h, false)
+	if variant == 5 { // forged prepared proof for the evil block inside the leader's own vote
+		for i, vt := range votes {
+			if vt.Sender.Id == leader {
+				votes[i] = a.mkVote(leader, inst, h, v, a.forgeProof(h, v-1, E))
+			}
+		}
+	}
+	m := a.mkNV(leader, h, v, votes, spi.HashOf(E), E, v)
+	// aim at the nodes that have not committed this height
+	a.sendSome(leader, a.at(h), m, 90)
+	return true
+}
+
+func (a *Adversary) replayVote(id string, h, v uint64) *ref.Vote {
+	for _, f := range a.w.Seen {
+		m := f.Msg
+		if m != nil && m.Env == ref.EnvVC && f.Honest && m.Sender.Id == id && m.H == h && m.V != v {
+			c := *m.Vote
+			c.V = v
+			return &c
+		}
+	}
+	return nil
+}
+
+// forgeProof: a prepared proof for blk at view pv signed by whoever the adversary can sign for, garbage otherwise.
+func (a *Adversary) forgeProof(h, pv uint64, blk *spi.Blk) *ref.Proof {
+	c := a.w.Comm(h)
+	inst := uint64(spi.InstanceId)
+	pp := &ref.Ref{Type: ref.PP, Inst: inst, H: h, V: pv, Hash: spi.HashOf(blk)}
+	pr := &ref.Ref{Type: ref.P, Inst: inst, H: h, V: pv, Hash: spi.HashOf(blk)}
+	leader := c.Leader(pv)
+	p := &ref.Proof{PPRef: pp, PRef: pr, PPSender: &ref.Sig{Id: leader, Sig: a.sign(leader, h, pp.Bytes())}}
+	ids := []string{leader}
+	for _, m := range c.Members {
+		id := string(m.Id)
+		if id == leader {
+			continue
+		}
+		p.PSenders = append(p.PSenders, ref.Sig{Id: id, Sig: a.sign(id, h, pr.Bytes())})
+		ids = append(ids, id)
+		if c.IsQuorum(ids) {
+			break
+		}
+	}
+	return p
+}
+
+// twistedNV: genuine votes, but the NEW_VIEW is built wrongly in one respect.
+func (a *Adversary) twistedNV(h uint64) bool {
+	v, leader, ok := a.byzLedView(h, 1)
+	if !ok {
+		return false
+	}
+	c := a.w.Comm(h)
+	votes := a.collectVotes(h, v, leader)
+	if !c.IsQuorum(voteIds(votes)) {
+		return false
+	}
+	// the lock among the votes
+	var lockHash []byte
+	var lockBlk *spi.Blk
+	best := int64(-1)
+	for _, f := range a.w.Seen {
+		m := f.Msg
+		if m == nil || m.Env != ref.EnvVC || m.H != h || m.V != v || !f.Honest || f.To != leader || m.Vote.Proof == nil || m.Vote.Proof.PPRef == nil {
+			continue
+		}
+		if int64(m.Vote.Proof.PPRef.V) > best {
+			best, lockHash, lockBlk = int64(m.Vote.Proof.PPRef.V), m.Vote.Proof.PPRef.Hash, m.Block
+		}
+	}
+	E := a.newBlock(h, false)
+	var m *interfaces.ConsensusRawMessage
+	variant := a.r.Intn(6)
+	switch {
+	case variant == 0 && lockHash != nil: // embedded proposal hash of another block, attached block = locked block
+		m = a.mkNV(leader, h, v, votes, spi.HashOf(E), lockBlk, v)
+	case variant == 1 && lockHash != nil: // fresh block despite the lock
+		m = a.mkNV(leader, h, v, votes, spi.HashOf(E), E, v)
+	case variant == 2: // embedded proposal of another view
+		hash, blk := spi.HashOf(E), E
+		if lockHash != nil {
+			hash, blk = lockHash, lockBlk
+		}
+		m = a.mkNV(leader, h, v, votes, hash, blk, v+1)
+	case variant == 3 && lockHash != nil: // locked hash but a different attached block
+		m = a.mkNV(leader, h, v, votes, lockHash, E, v)
+	case variant == 4: // omit votes while keeping quorum (allowed), drop the lock carrier if possible
+		var kept []*ref.Vote
+		for _, vt := range votes {
+			cand := append(append([]*ref.Vote{}, kept...), vt)
+			_ = cand
+			kept = append(kept, vt)
+		}
+		for i := range kept {
+			rest := append(append([]*ref.Vote{}, kept[:i]...), kept[i+1:]...)
+			if kept[i].Proof != nil && c.IsQuorum(voteIds(rest)) {
+				kept = rest
+				break
+			}
+		}
+		hash, blk := spi.HashOf(E), E
+		for _, vt := range kept {
+			if vt.Proof != nil && vt.Proof.PPRef != nil {
+				hash, blk = lockHash, lockBlk // may be wrong on purpose if a lower lock remains
+			}
+		}
+		m = a.mkNV(leader, h, v, kept, hash, blk, v)
+	default: // correct behaviour of a Byzantine leader
+		hash, blk := spi.HashOf(E), E
+		if lockHash != nil {
+			hash, blk = lockHash, lockBlk
+		}
+		m = a.mkNV(leader, h, v, votes, hash, blk, v)
+	}
+	a.sendSome(leader, a.at(h), m, 90)
+	return true
+}
+
+// honestLike: a Byzantine leader of view 0 simply proposes a good block (so Byzantine-led heights also make progress).
+func (a *Adversary) honestLike(h uint64) bool {
+	c := a.w.Comm(h)
+	leader := c.Leader(0)
+	if !a.w.Cfg.Byz[leader] {
+		return false
+	}
+	k := fmt.Sprintf("hl|%d", h)
+	if a.done[k] {
+		return false
+	}
+	a.done[k] = true
+	E := a.newBlock(h, false)
+	m := a.mkRefMsg(ref.EnvPP, ref.PP, leader, uint64(spi.InstanceId), h, 0, spi.HashOf(E), E)
+	a.sendSome(leader, a.at(h), m, 100)
+	return true
+}
+
+// outsider: an id with a valid key that is not in the committee takes part.
+func (a *Adversary) outsider(h uint64) bool {
+	if len(a.outs) == 0 {
+		return false
+	}
+	x := a.outs[a.r.Intn(len(a.outs))]
+	inst := uint64(spi.InstanceId)
+	props := a.proposals(h)
+	c := a.w.Comm(h)
+	switch a.r.Intn(3) {
+	case 0:
+		if len(props) == 0 {
+			return false
+		}
+		p := props[a.r.Intn(len(props))]
+		a.sendSome(x, a.at(h), a.mkRefMsg(ref.EnvP, ref.P, x, inst, h, p.v, []byte(p.hash), nil), 70)
+	case 1:
+		if len(props) == 0 {
+			return false
+		}
+		p := props[a.r.Intn(len(props))]
+		a.sendSome(x, a.at(h), a.mkRefMsg(ref.EnvC, ref.C, x, inst, h, p.v, []byte(p.hash), nil), 70)
+	case 2:
+		vs := a.views(h)
+		v := vs[a.r.Intn(len(vs))]
+		a.send(x, c.Leader(v), ref.RawVoteMsg(a.mkVote(x, inst, h, v, nil), nil))
+	}
+	return true
+}
+
+// vcGames: Byzantine votes aimed at a correct leader.
+func (a *Adversary) vcGames(h uint64) bool {
+	bm := a.byzMembers(h)
+	if len(bm) == 0 {
+		return false
+	}
+	b := bm[a.r.Intn(len(bm))]
+	c := a.w.Comm(h)
+	vs := a.views(h)
+	v := vs[a.r.Intn(len(vs))]
+	if v == 0 {
+		v = 1
+	}
+	leader := c.Leader(v)
+	if !a.w.IsCorrect(leader) {
+		return false
+	}
+	inst := uint64(spi.InstanceId)
+	// a genuine proof seen at this height for a lower view
+	var gp *ref.Proof
+	var gblk *spi.Blk
+	for _, f := range a.w.Seen {
+		m := f.Msg
+		if m != nil && m.Env == ref.EnvVC && m.H == h && f.Honest && m.Vote.Proof != nil && m.Vote.Proof.PPRef != nil && m.Vote.Proof.PPRef.V < v {
+			gp, gblk = m.Vote.Proof, m.Block
+		}
+	}
+	E := a.newBlock(h, false)
+	var raw *interfaces.ConsensusRawMessage
+	switch a.r.Intn(7) {
+	case 0: // genuine proof, no block
+		if gp == nil {
+			return false
+		}
+		raw = ref.RawVoteMsg(a.mkVote(b, inst, h, v, gp), nil)
+	case 1: // genuine proof, wrong block
+		if gp == nil {
+			return false
+		}
+		raw = ref.RawVoteMsg(a.mkVote(b, inst, h, v, gp), E)
+	case 2: // genuine proof and block (correct behaviour)
+		if gp == nil {
+			return false
+		}
+		raw = ref.RawVoteMsg(a.mkVote(b, inst, h, v, gp), gblk)
+	case 3: // block without proof
+		raw = ref.RawVoteMsg(a.mkVote(b, inst, h, v, nil), E)
+	case 4: // forged proof with its block
+		raw = ref.RawVoteMsg(a.mkVote(b, inst, h, v, a.forgeProof(h, v-1, E)), E)
+	case 5: // wrong target leader
+		other := c.Leader(v + 1)
+		a.send(b, other, ref.RawVoteMsg(a.mkVote(b, inst, h, v, nil), nil))
+		return true
+	default: // plain vote
+		raw = ref.RawVoteMsg(a.mkVote(b, inst, h, v, nil), nil)
+	}
+	a.send(b, leader, raw)
+	return true
+}
+
+func (a *Adversary) garbage(h uint64) bool {
+	nodes := a.at(h)
+	if len(nodes) == 0 {
+		return false
+	}
+	n := nodes[a.r.Intn(len(nodes))]
+	var content []byte
+	if a.r.Intn(2) == 0 && len(a.w.Seen) > 0 {
+		src := a.w.Seen[a.r.Intn(len(a.w.Seen))].Raw.Content
+		content = append([]byte{}, src...)
+		switch a.r.Intn(3) {
+		case 0:
+			content = content[:a.r.Intn(len(content)+1)]
+		case 1:
+			if len(content) > 0 {
+				content[a.r.Intn(len(content))] ^= byte(1 << uint(a.r.Intn(8)))
+			}
+		case 2:
+			if len(content) >= 8 {
+				i := a.r.Intn(len(content) - 3)
+				content[i], content[i+1], content[i+2], content[i+3] = 0xff, 0xff, 0xff, 0x7f
+			}
+		}
+	} else {
+		content = make([]byte, a.r.Intn(200))
+		a.r.Read(content)
+	}
+	from := "x00"
+	if len(a.byz) > 0 {
+		from = a.byz[0]
+	}
+	a.send(from, n.Id, &interfaces.ConsensusRawMessage{Content: content})
+	return true
+}
+
+func (a *Adversary) hugeView(h uint64) bool {
+	bm := a.byzMembers(h)
+	nodes := a.at(h)
+	if len(bm) == 0 || len(nodes) == 0 {
+		return false
+	}
+	b := bm[a.r.Intn(len(bm))]
+	inst := uint64(spi.InstanceId)
+	views := []uint64{1 << 31, 1<<32 + 1, 1<<63 - 1, 1 << 63, 1<<63 + 1, ^uint64(0) - 1, ^uint64(0)}
+	v := views[a.r.Intn(len(views))]
+	n := nodes[a.r.Intn(len(nodes))]
+	E := a.newBlock(h, false)
+	switch a.r.Intn(4) {
+	case 0:
+		a.send(b, n.Id, ref.RawVoteMsg(a.mkVote(b, inst, h, v, nil), nil))
+	case 1:
+		a.send(b, n.Id, a.mkRefMsg(ref.EnvP, ref.P, b, inst, h, v, spi.HashOf(E), nil))
+	case 2:
+		a.send(b, n.Id, a.mkRefMsg(ref.EnvPP, ref.PP, b, inst, h, v, spi.HashOf(E), E))
+	case 3:
+		a.send(b, n.Id, a.mkNV(b, h, v, a.collectVotes(h, v, b), spi.HashOf(E), E, v))
+	}
+	return true
+}
+
+// mutate: take a message seen on the wire, change one thing, deliver it somewhere.
+func (a *Adversary) mutate(h uint64) bool {
+	w := a.w
+	if len(w.Seen) == 0 {
+		return false
+	}
+	var src *Flight
+	for try := 0; try < 8; try++ {
+		i := len(w.Seen) - 1 - a.r.Intn(minInt(len(w.Seen), 60))
+		f := w.Seen[i]
+		if f.Msg != nil && f.Msg.H == h {
+			src = f
+			break
+		}
+	}
+	if src == nil {
+		return false
+	}
+	m, _ := ref.Decode(src.Raw) // private copy
+	env := m.Env
+	c := w.Comm(h)
+	resign := false
+	what := a.r.Intn(16)
+	other := string(c.Members[a.r.Intn(c.N())].Id)
+	switch what {
+	case 0: // header type tag
+		m.Type = []ref.MT{ref.PP, ref.P, ref.C, ref.NV, ref.VC, 0, 9}[a.r.Intn(7)]
+		resign = true
+	case 1: // envelope swap among the block-ref messages
+		if env > ref.EnvC {
+			return false
+		}
+		env = ref.Env(a.r.Intn(3))
+		if env == ref.EnvC && len(m.Share) == 0 {
+			m.Share = a.share(m.Sender.Id, m.H)
+		}
+	case 2:
+		m.Inst = uint64(spi.OtherInstanceId)
+		resign = true
+	case 3:
+		m.H = m.H + 1
+		resign = true
+	case 4:
+		if m.H > 1 {
+			m.H--
+		}
+		resign = true
+	case 5:
+		m.V++
+		resign = true
+	case 6:
+		if m.V > 0 {
+			m.V--
+		}
+		resign = true
+	case 7:
+		if len(m.Hash) > 0 {
+			m.Hash = append([]byte{}, m.Hash...)
+			m.Hash[a.r.Intn(len(m.Hash))] ^= 0x40
+			if m.EmbPP != nil {
+				e := *m.EmbPP
+				e.Hash = m.Hash
+				m.EmbPP = &e
+			}
+		}
+		resign = true
+	case 8: // sender substitution
+		ids := []string{other, "", "nobody"}
+		if len(a.outs) > 0 {
+			ids = append(ids, a.outs[0])
+		}
+		if len(a.byz) > 0 {
+			ids = append(ids, a.byz[a.r.Intn(len(a.byz))])
+		}
+		m.Sender.Id = ids[a.r.Intn(len(ids))]
+		resign = a.r.Intn(2) == 0
+	case 9: // signature stripping / swapping
+		if a.r.Intn(2) == 0 {
+			m.Sender.Sig = nil
+		} else {
+			m.Sender.Sig = a.garbageSig()
+		}
+	case 10: // share games
+		if env != ref.EnvC {
+			return false
+		}
+		switch a.r.Intn(3) {
+		case 0:
+			m.Share = a.garbageSig()
+		case 1:
+			m.Share = nil
+		case 2:
+			m.Share = a.share(other, m.H)
+		}
+	case 11: // vote: proof / block games
+		if env != ref.EnvVC {
+			return false
+		}
+		switch a.r.Intn(4) {
+		case 0:
+			m.Vote.Proof = nil
+			resign = true
+		case 1:
+			m.Block = nil
+		case 2:
+			m.Block = a.newBlock(m.H, false)
+		case 3:
+			if m.Vote.Proof == nil {
+				return false
+			}
+			p := *m.Vote.Proof
+			p.PSenders = append([]ref.Sig{}, p.PSenders...)
+			switch a.r.Intn(4) {
+			case 0:
+				if len(p.PSenders) > 0 {
+					p.PSenders = p.PSenders[1:]
+				}
+			case 1:
+				if len(p.PSenders) > 0 {
+					p.PSenders = append(p.PSenders, p.PSenders[0])
+				}
+			case 2:
+				if p.PPSender != nil {
+					p.PSenders = append(p.PSenders, ref.Sig{Id: p.PPSender.Id, Sig: a.garbageSig()})
+				}
+			case 3:
+				if p.PPRef != nil {
+					r := *p.PPRef
+					r.V++
+					p.PPRef = &r
+				}
+			}
+			m.Vote.Proof = &p
+			resign = true
+		}
+	case 12: // new view: vote list games
+		if env != ref.EnvNV || len(m.Votes) == 0 {
+			return false
+		}
+		switch a.r.Intn(4) {
+		case 0:
+			m.Votes = m.Votes[1:]
+		case 1:
+			m.Votes = append(m.Votes, m.Votes[0])
+		case 2:
+			v0 := *m.Votes[0]
+			v0.Sender.Sig = a.garbageSig()
+			m.Votes = append([]*ref.Vote{&v0}, m.Votes[1:]...)
+		case 3:
+			m.Block = a.newBlock(m.H, false)
+		}
+		resign = true
+	case 13: // redirect unchanged (replay to another node)
+	case 14: // extreme view values
+		m.V = []uint64{1<<31 - 1, 1 << 32, 1 << 63, ^uint64(0)}[a.r.Intn(4)]
+		resign = true
+	case 15: // empty block on a proposal
+		if env != ref.EnvPP && env != ref.EnvNV {
+			return false
+		}
+		m.Block = nil
+	}
+	if resign && a.own[m.Sender.Id] {
+		// authentic but semantically wrong
+		switch env {
+		case ref.EnvPP, ref.EnvP, ref.EnvC:
+			m.Sender.Sig = a.sign(m.Sender.Id, m.H, (&ref.Ref{Type: m.Type, Inst: m.Inst, H: m.H, V: m.V, Hash: m.Hash}).Bytes())
+		case ref.EnvVC:
+			vt := *m.Vote
+			vt.Type, vt.Inst, vt.H, vt.V = m.Type, m.Inst, m.H, m.V
+			m.Sender.Sig = a.sign(m.Sender.Id, m.H, vt.HeaderBytes())
+		case ref.EnvNV:
+			m.Sender.Sig = a.sign(m.Sender.Id, m.H, ref.NVHeaderBytes(m.Type, m.Inst, m.H, m.V, m.Votes))
+			if m.EmbPP != nil && m.EmbSig != nil && a.own[m.EmbSig.Id] {
+				s := *m.EmbSig
+				s.Sig = a.sign(s.Id, m.H, m.EmbPP.Bytes())
+				m.EmbSig = &s
+			}
+		}
+	}
+	raw := ref.Rebuild(m, env)
+	if raw == nil {
+		return false
+	}
+	nodes := a.at(h)
+	if len(nodes) == 0 {
+		return false
+	}
+	to := src.To
+	if !w.IsCorrect(to) || a.r.Intn(2) == 0 {
+		to = nodes[a.r.Intn(len(nodes))].Id
+	}
+	w.Mon.Stats[fmt.Sprintf("adv mutate kind %02d", what)]++
+	a.send(src.From, to, raw)
+	return true
+}
+
+func minInt(a, b int) int {
+	if a < b {
+		return a
+	}
+	return b
+}
